@@ -1,7 +1,9 @@
 """C18 -- border relocation only pulls outliers radially inward to the border.
 
 Vectorised numpy primitives (np.mean, np.min, np.max, np.argmin, np.sqrt of arrays, np.add / np.subtract, `a[:, :] = b`)
-are read through the minimal facts listed in pyvc/ext/c18.py.
+are read through the minimal facts listed in pyvc/ext/c18.py (A).  Squares, products, quotients and the moved coordinate
+are opaque symbols for the prover, shared by the program and the specification; what is needed of their arithmetic meaning
+is isolated in two lemmas that are proved on every run -- see (7) there.
 """
 import math
 import numpy as np
@@ -10,21 +12,25 @@ from pyvc import gens
 from pyvc.ext import c18 as _ext
 
 G2 = "autoarray.structures.grids.grid_2d_util:"
+_RELOC = G2 + "relocated_grid_via_jit_from"
 
-# x * x, kept as an uninterpreted symbol (definition: opt-in axiom "sq18", see pyvc/ext/c18.py (7))
 macro("sq18", ["x"], "x * x", py=lambda x: x * x, opaque=(["real"], "real"))
-# identity, used only as the trigger that unfolds sq18 at chosen terms in ghost assertions
-macro("unf18", ["x"], "x", py=lambda x: x, opaque=(["real"], "real"))
+macro("mfac18", ["a", "b"], "a / b", py=lambda a, b: a / b, opaque=(["real", "real"], "real"))       # move factor r_b / r
+macro("mv18", ["c", "m", "p"], "c + m * (p - c)", py=lambda c, m, p: c + m * (p - c),                # c + m (p - c)
+      opaque=(["real", "real", "real"], "real"))
+for _n in ("ins18", "out18", "bnd18", "wit18"):       # per-clause row markers / witness marker (triggers only; `True`)
+    macro(_n, ["i"], "True", py=lambda i: True, opaque=(["int"], "bool"))
+macro("scale18", ["c0", "c1", "p0", "p1", "rb"], "True", py=lambda *a: True, opaque=(["real"] * 5, "bool"))   # lemma trigger
 # distance of point i of the (n, 2) array A from (c0, c1)
 macro("rad18", ["A", "i", "c0", "c1"], "sqrt(sq18(A[i, 0] - c0) + sq18(A[i, 1] - c1))",
       py=lambda A, i, c0, c1: float(np.sqrt((A[i, 0] - c0) ** 2 + (A[i, 1] - c1) ** 2)))
 # squared distance between point i of P and point j of Q ("nearest" is the same for distance and squared distance)
 macro("dsq18", ["P", "i", "Q", "j"], "sq18(P[i, 0] - Q[j, 0]) + sq18(P[i, 1] - Q[j, 1])",
       py=lambda P, i, Q, j: float((P[i, 0] - Q[j, 0]) ** 2 + (P[i, 1] - Q[j, 1]) ** 2))
-# bit-for-bit equality: two exact comparisons (the DSL's `==` is tolerant at run time, `<=` is not)
-macro("same18", ["a", "b"], "a <= b and b <= a", py=lambda a, b: bool(a == b))
-# a <= b up to the run-time tolerance of `==` (identical to <= for the prover)
-macro("le18", ["a", "b"], "a < b or a == b")
+# bit-for-bit equality: plain equality for the prover; at run time EXACT float equality (the DSL's own `==` is tolerant)
+macro("same18", ["a", "b"], "a == b", py=lambda a, b: bool(a == b))
+# a <= b; at run time up to the tolerance of the DSL's `==` (rounding of a computed radius)
+macro("le18", ["a", "b"], "a <= b", py=lambda a, b: bool(a <= b or abs(a - b) <= 1e-9 * max(1.0, abs(a), abs(b))))
 
 _R = "rad18(grid, i, c0, c1)"            # distance of coordinate i from the border centroid
 _RB = "rad18(border_grid, {j}, c0, c1)"  # radius of border point j
@@ -32,24 +38,27 @@ _UNCH = "same18({o}[i, 0], grid[i, 0]) and same18({o}[i, 1], grid[i, 1])"
 
 
 def _rule(o):
-    """the relocation rule for coordinate i, output array `o` (three clauses of the property statement)"""
-    inside = ("implies(forall(0, B, lambda j: " + _R + " <= " + _RB.format(j="j") + ", pat=" + _RB.format(j="j") + "), " + _UNCH.format(o=o) + ")")
+    """the relocation rule for coordinate i, output array `o` (three clauses of the property statement).
+    Triggers: border quantifiers whose body mentions the radius of border point j fire on that radius term, `nearest`
+    fires on the border coordinate -- so that the Skolem index of a refuted `nearest` never re-triggers the search for b."""
+    inside = ("ins18(i) and implies(forall(0, B, lambda j: " + _R + " <= " + _RB.format(j="j") + ", pat=" + _RB.format(j="j") + "), "
+              + _UNCH.format(o=o) + ")")
     nearest = "forall(0, B, lambda j: dsq18(grid, i, border_grid, b) <= dsq18(grid, i, border_grid, j), pat=border_grid[j, 0])"
-    m = _RB.format(j="b") + " / " + _R
+    m = "mfac18(" + _RB.format(j="b") + ", " + _R + ")"
     moved = ("(" + _RB.format(j="b") + " < " + _R + " and 0 <= " + m + " and " + m + " < 1"
-             " and {o}[i, 0] == c0 + " + m + " * (grid[i, 0] - c0) and {o}[i, 1] == c1 + " + m + " * (grid[i, 1] - c1))").format(o=o)
+             " and {o}[i, 0] == mv18(c0, " + m + ", grid[i, 0]) and {o}[i, 1] == mv18(c1, " + m + ", grid[i, 1]))").format(o=o)
     kept = "(" + _RB.format(j="b") + " >= " + _R + " and " + _UNCH.format(o=o) + ")"
-    outside = ("implies(exists(0, B, lambda j: " + _RB.format(j="j") + " < " + _R + ", pat=" + _RB.format(j="j") + "),"
-               " exists(0, B, lambda b: " + nearest + " and (" + moved + " or " + kept + "), pat=" + _RB.format(j="b") + "))")
-    bounded = ("le18(rad18(%s, i, c0, c1), %s) and exists(0, B, lambda j: le18(rad18(%s, i, c0, c1), %s), pat=%s)"
+    outside = ("out18(i) and implies(exists(0, B, lambda j: " + _RB.format(j="j") + " < " + _R + ", pat=" + _RB.format(j="j") + "),"
+               " exists(0, B, lambda b: wit18(b) and " + nearest + " and (" + moved + " or " + kept + "), pat=wit18(b)))")
+    bounded = ("bnd18(i) and le18(rad18(%s, i, c0, c1), %s) and exists(0, B, lambda j: le18(rad18(%s, i, c0, c1), %s), pat=%s)"
                % (o, _R, o, _RB.format(j="j"), _RB.format(j="j")))
     return inside, outside, bounded
 
 
-# ghost stepping stones at the end of the loop body (i = pixel_index, cl = closest_pixel_index, o = grid_relocated)
-_I = "pixel_index"
+# ghost stepping stones at the end of the loop body (k = pixel_index, cl = closest_pixel_index, o = grid_relocated)
 _RI = "rad18(grid, pixel_index, c0, c1)"
 _RC = "rad18(border_grid, closest_pixel_index, c0, c1)"
+_MF = "mfac18(" + _RC + ", " + _RI + ")"
 _OUTSIDE = "grid_radii[pixel_index] > border_min_radii"
 _MOVED = "(" + _OUTSIDE + " and move_factor < 1)"
 _DY, _DX = "(grid[pixel_index, 0] - c0)", "(grid[pixel_index, 1] - c1)"
@@ -61,36 +70,39 @@ _STEPS = [
     "implies(not " + _OUTSIDE + ", forall(0, B, lambda j: " + _RI + " <= " + _RB.format(j="j") + ", pat=" + _RB.format(j="j") + "))",
     # outside: some border radius is smaller; cl is a nearest border point; radii are those of the statement
     "implies(" + _OUTSIDE + ", exists(0, B, lambda j: " + _RB.format(j="j") + " < " + _RI + ", pat=" + _RB.format(j="j") + "))",
-    "implies(" + _OUTSIDE + ", 0 <= closest_pixel_index and closest_pixel_index < B)",
+    "implies(" + _OUTSIDE + ", 0 <= closest_pixel_index and closest_pixel_index < B and wit18(closest_pixel_index))",
     "implies(" + _OUTSIDE + ", forall(0, B, lambda j: dsq18(grid, pixel_index, border_grid, closest_pixel_index)"
     " <= dsq18(grid, pixel_index, border_grid, j), pat=border_grid[j, 0]))",
-    "implies(" + _OUTSIDE + ", " + _RI + " > 0 and " + _RC + " >= 0 and move_factor == " + _RC + " / " + _RI + ")",
+    "implies(" + _OUTSIDE + ", " + _RI + " > 0 and " + _RC + " >= 0 and move_factor == " + _MF + ")",
     "implies(" + _OUTSIDE + " and not move_factor < 1, " + _RC + " >= " + _RI + " and " + _SAMEROW + ")",
-    "implies(" + _MOVED + ", " + _RC + " < " + _RI + " and 0 <= " + _RC + " / " + _RI + " and " + _RC + " / " + _RI + " < 1)",
-    "implies(" + _MOVED + ", grid_relocated[pixel_index, 0] == c0 + " + _RC + " / " + _RI + " * " + _DY
-    + " and grid_relocated[pixel_index, 1] == c1 + " + _RC + " / " + _RI + " * " + _DX + ")",
-    # moved: the new radius is the radius of the nearest border point  (sqrt(m^2 r^2) = m r = r_b)
-    "implies(" + _MOVED + ", " + _OY + " == move_factor * " + _DY + " and " + _OX + " == move_factor * " + _DX + ")",
-    "implies(" + _MOVED + ", sq18(unf18(" + _OY + ")) + sq18(unf18(" + _OX + ")) == move_factor * move_factor * (sq18(unf18(" + _DY + ")) + sq18(unf18(" + _DX + "))))",
-    "implies(" + _MOVED + ", sq18(" + _DY + ") + sq18(" + _DX + ") >= 0 and " + _RI + " * " + _RI + " == sq18(unf18(" + _DY + ")) + sq18(unf18(" + _DX + ")))",
-    "implies(" + _MOVED + ", move_factor * " + _RI + " == " + _RC + ")",
-    "implies(" + _MOVED + ", move_factor * move_factor * (sq18(" + _DY + ") + sq18(" + _DX + ")) == " + _RC + " * " + _RC + ")",
-    "implies(" + _MOVED + ", sqrt(" + _RC + " * " + _RC + ") == " + _RC + ")",
-    "implies(" + _MOVED + ", sq18(" + _OY + ") + sq18(" + _OX + ") == " + _RC + " * " + _RC + ")",
-    "implies(" + _MOVED + ", rad18(grid_relocated, pixel_index, c0, c1) == " + _RC + ")",
+    "implies(" + _MOVED + ", " + _RC + " < " + _RI + " and 0 <= " + _MF + " and " + _MF + " < 1)",
+    "implies(" + _MOVED + ", grid_relocated[pixel_index, 0] == mv18(c0, " + _MF + ", grid[pixel_index, 0])"
+    " and grid_relocated[pixel_index, 1] == mv18(c1, " + _MF + ", grid[pixel_index, 1]))",
+    # moved: the new radius is the radius of the nearest border point (proved lemma "scale" of pyvc/ext/c18.py)
+    "implies(" + _MOVED + ", scale18(c0, c1, grid[pixel_index, 0], grid[pixel_index, 1], " + _RC + ")"
+    " and rad18(grid_relocated, pixel_index, c0, c1) == " + _RC + ")",
 ]
 
-_ext.OPAQUE_SQUARE.add(G2 + "relocated_grid_via_jit_from")
-_ext.ROW_LEN[G2 + "relocated_grid_via_jit_from"] = 2
-_ext.NO_ARRAY_EXT.add(G2 + "relocated_grid_via_jit_from")
+_ext.OPAQUE_ARITH.add(_RELOC)
+_ext.ROW_LEN[_RELOC] = 2
+_ext.NO_ARRAY_EXT.add(_RELOC)
 _INS, _OUT, _BND = _rule("result")
 _INS_L, _OUT_L, _BND_L = _rule("grid_relocated")
+_RO = "rad18(grid_relocated, pixel_index, c0, c1)"
+_STEPS += [
+    # the new radius in the three cases
+    "implies(not " + _OUTSIDE + ", " + _RO + " == " + _RI + ")",
+    "implies(" + _OUTSIDE + " and not move_factor < 1, " + _RO + " == " + _RI + " and " + _RI + " <= " + _RC + ")",
+    "le18(" + _RO + ", " + _RI + ")",
+    "exists(0, B, lambda j: le18(" + _RO + ", " + _RB.format(j="j") + "), pat=" + _RB.format(j="j") + ")",
+]
 # ... and, last, the three clauses of the rule for the current row (the invariant bodies at i = pixel_index)
-_STEPS += [x.replace("[i, ", "[pixel_index, ").replace(", i, ", ", pixel_index, ") for x in (_INS_L, _OUT_L, _BND_L)]
+_STEPS += [x.replace("[i, ", "[pixel_index, ").replace(", i, ", ", pixel_index, ").replace("18(i)", "18(pixel_index)") for x in (_INS_L, _OUT_L, _BND_L)]
 
 contract(
-    G2 + "relocated_grid_via_jit_from", props=["C18"],
-    types={"grid": "real[2]", "border_grid": "real[2]"}, returns="real[2]", uses_math=["sqrt", "sq18"],
+    _RELOC, props=["C18"],
+    types={"grid": "real[2]", "border_grid": "real[2]"}, returns="real[2]",
+    uses_math=["sqrt_nonneg", "mv18", "scale18", "rowmark18"],
     let={"N": "grid.shape[0]", "B": "border_grid.shape[0]",
          # the border centroid: mean of the border points
          "c0": "np.mean(border_grid[:, 0])", "c1": "np.mean(border_grid[:, 1])"},
@@ -98,26 +110,89 @@ contract(
     ensures=[
         # number and order of coordinates preserved (row i of the result is the image of row i of the input)
         "result.shape[0] == N", "result.shape[1] == 2",
-        "forall(0, N, lambda i: " + _INS + ", pat=grid[i, 0])",
-        "forall(0, N, lambda i: " + _OUT + ", pat=grid[i, 0])",
-        "forall(0, N, lambda i: " + _BND + ", pat=grid[i, 0])",
+        "forall(0, N, lambda i: " + _INS + ", pat=ins18(i))",
+        "forall(0, N, lambda i: " + _OUT + ", pat=out18(i))",
+        "forall(0, N, lambda i: " + _BND + ", pat=bnd18(i))",
     ],
     loops={0: {"inv": [
         "border_origin[0] == c0 and border_origin[1] == c1",
-        "forall(0, B, lambda j: border_grid_radii[j] == " + _RB.format(j="j") + ", pat=(border_grid_radii[j], " + _RB.format(j="j") + "))",
+        # (trigger: the specification's radius term only -- never derive it from a program array element, or the Skolem
+        #  index of a refuted `nearest` climbs through the element-wise facts back to a radius term and re-triggers `b`)
+        "forall(0, B, lambda j: border_grid_radii[j] == " + _RB.format(j="j") + ", pat=" + _RB.format(j="j") + ")",
         "forall(0, N, lambda i: grid_radii[i] == " + _R + ", pat=(grid_radii[i], " + _R + "))",
         "forall(0, B, lambda j: border_min_radii <= border_grid_radii[j], pat=border_grid_radii[j])",
-        "exists(0, B, lambda j: border_min_radii == border_grid_radii[j])",
-        "forall(0, pixel_index, lambda i: " + _INS_L + ", pat=grid[i, 0])",
-        "forall(0, pixel_index, lambda i: " + _OUT_L + ", pat=grid[i, 0])",
-        "forall(0, pixel_index, lambda i: " + _BND_L + ", pat=grid[i, 0])",
+        "exists(0, B, lambda j: border_min_radii == border_grid_radii[j] and border_min_radii == " + _RB.format(j="j") + ")",
+        "forall(0, pixel_index, lambda i: " + _INS_L + ", pat=ins18(i))",
+        "forall(0, pixel_index, lambda i: " + _OUT_L + ", pat=out18(i))",
+        "forall(0, pixel_index, lambda i: " + _BND_L + ", pat=bnd18(i))",
         "forall(pixel_index, N, lambda i: grid_relocated[i, 0] == grid[i, 0] and grid_relocated[i, 1] == grid[i, 1], pat=grid[i, 0])",
     ], "assert_at": {1: _STEPS}}},
     sentence={
-        "implies(forall": "every coordinate whose distance from the border centroid does not exceed the smallest border radius is bit-for-bit unchanged",
-        "implies(exists": "any other coordinate moves only along its ray from the centroid, never outward (out = c + m (p - c), 0 <= m < 1), "
+        "ins18": "every coordinate whose distance from the border centroid does not exceed the smallest border radius is bit-for-bit unchanged",
+        "out18": "any other coordinate moves only along its ray from the centroid, never outward (out = c + m (p - c), 0 <= m < 1), "
                           "to the radius of its nearest border point when that is smaller than its own",
-        "le18": "never outward: no output lies farther from the centroid than its input, nor than the farthest border point",
+        "bnd18": "never outward: no output lies farther from the centroid than its input, nor than the farthest border point",
         "result.shape[0] == N": "the number and order of coordinates are preserved",
     },
 )
+
+
+# ----------------------------------------------------------------------------- engine C generators
+def _border_set(rng):
+    kind = rng.choice(["star", "cluster", "tiny", "square", "dupes", "line"])
+    cy, cx = rng.uniform(-3, 3), rng.uniform(-3, 3)
+    if kind == "tiny":
+        return np.array([[cy + rng.uniform(-2, 2), cx + rng.uniform(-2, 2)] for _ in range(rng.randint(1, 3))])
+    if kind == "square":
+        return np.array([[cy + a, cx + b] for a in (-1.0, 0.0, 1.0) for b in (-1.0, 0.0, 1.0) if (a, b) != (0.0, 0.0)])
+    if kind == "line":
+        return np.array([[cy, cx + t] for t in range(rng.randint(2, 5))], dtype=float)
+    n = rng.randint(4, 9)
+    pts = []
+    for k in range(n):
+        th = 2 * math.pi * k / n + rng.uniform(-0.2, 0.2)
+        rad = rng.uniform(0.4, 3.0)                                              # non-convex star
+        pts.append([cy + rad * math.sin(th), cx + rad * math.cos(th)])
+    if kind == "cluster":                                                        # off-centre centroid
+        for _ in range(rng.randint(2, 5)):
+            pts.append([cy + 2.5 + rng.uniform(-0.2, 0.2), cx + 2.5 + rng.uniform(-0.2, 0.2)])
+    if kind == "dupes":
+        pts.append(list(pts[0]))
+        pts.append(list(pts[2]))
+    return np.array(pts)
+
+
+def _point_set(rng, border, n):
+    c = border.mean(axis=0)
+    pts = []
+    for _ in range(n):
+        r = rng.random()
+        if r < 0.2:
+            pts.append(list(border[rng.randrange(len(border))]))                       # exactly at a border point
+        elif r < 0.3:
+            pts.append([c[0] + rng.uniform(-300, 300), c[1] + rng.uniform(-300, 300)])  # far outside
+        elif r < 0.35:
+            pts.append([c[0], c[1]])                                                    # the centroid itself
+        elif r < 0.55:
+            pts.append([c[0] + rng.uniform(-0.5, 0.5), c[1] + rng.uniform(-0.5, 0.5)])  # deep inside
+        else:
+            pts.append([c[0] + rng.uniform(-5, 5), c[1] + rng.uniform(-5, 5)])
+    return np.array(pts, dtype=float).reshape(-1, 2)
+
+
+def _g_reloc(rng, tier):
+    for _ in range(gens.budget(tier, 250, 4000)):
+        border = _border_set(rng)
+        yield {"grid": _point_set(rng, border, rng.randint(0, 8)), "border_grid": border}
+
+
+def _reloc_nontrivial(grid, border_grid):
+    """at least one point is moved and one is kept"""
+    c = border_grid.mean(axis=0)
+    rb = np.hypot(border_grid[:, 0] - c[0], border_grid[:, 1] - c[1])
+    r = np.hypot(grid[:, 0] - c[0], grid[:, 1] - c[1]) if len(grid) else np.zeros(0)
+    return bool(border_grid.shape[0] >= 3 and (r > rb.max()).any() and (r <= rb.min()).any())
+
+
+CONTRACTS[_RELOC].gen = _g_reloc
+CONTRACTS[_RELOC].nontrivial = _reloc_nontrivial
